@@ -30,7 +30,8 @@ type ObjSpec struct {
 	Variant int    `json:"variant,omitempty"` // content variant
 	CP      string `json:"cp,omitempty"`      // collisionProtection
 	// Special marks a deliberately violating/odd object (C11): "", "ghost", "ownerref",
-	// "foreignns", "clusterkind", "clusterkind-ns", "reject", "dup".
+	// "foreignns", "clusterkind", "clusterkind-ns", "reject", "dup"; "nsb" is valid: for a cluster-scoped owner the object
+	// lives in the second namespace (a namesake of the same pool object in the main namespace).
 	Special string `json:"special,omitempty"`
 }
 
@@ -296,6 +297,11 @@ func (r *Runner) BuildObject(o ObjSpec, cluster bool) corev1alpha1.ObjectSetObje
 		u.SetNamespace(engine.NSMain)
 	}
 	switch o.Special {
+	case "nsb":
+		// a cluster-scoped owner may list namesakes in different namespaces: same kind and name in the other namespace
+		if cluster {
+			u.SetNamespace(engine.NSOther)
+		}
 	case "dup":
 		// same identity as an earlier object of the set
 	case "dupver":
